@@ -47,6 +47,7 @@ func opLevel(op string) int {
 }
 
 type printer struct {
+	sc     *Script
 	avoid  map[string]bool
 	static map[string]bool // static hazard tags present in the printed text
 	added  map[string]int  // parentheses / rewrites added because a tag is avoided
@@ -104,7 +105,7 @@ func litText(e *Expr) string {
 // inference from the context).
 func anchored(e *Expr) bool {
 	switch e.K {
-	case KVar, KCast, KNot:
+	case KVar, KCast, KNot, KCall:
 		return true
 	case KNeg:
 		return anchored(e.A)
@@ -123,6 +124,11 @@ func hasIntSpelledFloat(e *Expr) bool {
 	}
 	if e.K == KLit && e.IL {
 		return true
+	}
+	for _, a := range e.Args {
+		if hasIntSpelledFloat(a) {
+			return true
+		}
 	}
 	return hasIntSpelledFloat(e.A) || hasIntSpelledFloat(e.B)
 }
@@ -160,6 +166,15 @@ func (p *printer) expr(e *Expr, min int, bare, noDef bool, hint Ty) (string, boo
 	case KCast:
 		s, _ := p.expr(e.A, 0, false, true, e.T)
 		return e.T.String() + "(" + s + ")", true
+	case KCall:
+		h := &p.sc.Helpers[e.F]
+		var args []string
+		for i, a := range e.Args {
+			// the parameter fixes the type of a literal argument, as the target of an assignment does
+			x, _ := p.expr(a, 0, true, false, h.Params[i].T)
+			args = append(args, x)
+		}
+		return h.Name + "(" + strings.Join(args, ", ") + ")", true
 	case KNeg, KNot:
 		opTxt := "-"
 		if e.K == KNot {
@@ -334,16 +349,29 @@ func (p *printer) block(sb *strings.Builder, body []Stmt, ind int) {
 const funcName = "f"
 
 func (p *printer) program(sc *Script) string {
+	p.sc = sc
 	var sb strings.Builder
-	sb.WriteString("func " + funcName + "(")
-	for i, pa := range sc.Params {
-		if i > 0 {
-			sb.WriteString(", ")
+	fn := func(name string, params []Param, ret Ty, body []Stmt) {
+		sb.WriteString("func " + name + "(")
+		for i, pa := range params {
+			if i > 0 {
+				sb.WriteString(", ")
+			}
+			sb.WriteString(pa.N + " " + pa.T.String())
+			if pa.Def != nil {
+				d, _ := p.expr(pa.Def, 0, true, false, pa.T)
+				sb.WriteString(" = " + d)
+			}
 		}
-		sb.WriteString(pa.N + " " + pa.T.String())
+		sb.WriteString(") " + ret.String() + " {\n")
+		p.block(&sb, body, 1)
+		sb.WriteString("}\n")
 	}
-	sb.WriteString(") " + sc.Ret.String() + " {\n")
-	p.block(&sb, sc.Body, 1)
-	sb.WriteString("}\n")
+	for i := range sc.Helpers {
+		h := &sc.Helpers[i]
+		fn(h.Name, h.Params, h.Ret, h.Body)
+		sb.WriteString("\n")
+	}
+	fn(funcName, sc.Params, sc.Ret, sc.Body)
 	return sb.String()
 }
